@@ -141,8 +141,7 @@ pub fn build_tree(blake: bool, members: &[String], want: Option<&[usize]>) -> Bu
 }
 
 /// the (input, digest) pairs a verifier needs for (member, proof): the leaf digest and the
-/// digest of both concatenation orders at every step that has an L-byte element, following
-/// the sorted order for the next accumulator.  Elements that are not valid hex of L bytes
+/// digest of the sorted concatenation at every step that has an L-byte element.  Elements that are not valid hex of L bytes
 /// stop the chain (the contract errors there).
 pub fn fold_table(blake: bool, member: &str, proof: &[String]) -> Vec<(Vec<u8>, Vec<u8>)> {
     let l = if blake { 16 } else { 32 };
@@ -160,13 +159,12 @@ pub fn fold_table(blake: bool, member: &str, proof: &[String]) -> Vec<(Vec<u8>, 
         if b.len() != l {
             break;
         }
-        let mut ab = acc.clone();
-        ab.extend_from_slice(&b);
-        let mut ba = b.clone();
-        ba.extend_from_slice(&acc);
-        let hab = h(&ab);
-        let hba = h(&ba);
-        acc = if acc <= b { hab } else { hba };
+        // only the order a sorting verifier hashes: a model that concatenated the other way
+        // round would miss the table, which the correspondence check reports
+        let (lo, hi) = if acc <= b { (acc.clone(), b.clone()) } else { (b.clone(), acc.clone()) };
+        let mut c = lo;
+        c.extend_from_slice(&hi);
+        acc = h(&c);
     }
     let mut t = take_log();
     t.sort();
